@@ -15,6 +15,14 @@ Proof.
   destruct (find (fun f => String.eqb (fst (fst f)) k) fs); eexists; reflexivity.
 Qed.
 
+Theorem lookup_promoted_never_panics bn p k : exists b, lookup_promoted bn p k = Done b.
+Proof. unfold lookup_promoted. destruct (existsb (String.eqb k) bn); [eexists; reflexivity | apply lookup_never_panics]. Qed.
+Theorem promoted_behind_nil_is_absent bn p k : In k bn -> lookup_promoted bn p k = Done false.
+Proof.
+  intros H. unfold lookup_promoted. replace (existsb (String.eqb k) bn) with true; [reflexivity|].
+  symmetry. apply existsb_exists. exists k. split; [exact H | apply String.eqb_refl].
+Qed.
+
 Theorem field_name_never_panics_on_nonempty_keys k : k <> "" -> exists n, field_name k = Done n.
 Proof. destruct k; [congruence|]. intros _. eexists; reflexivity. Qed.
 
@@ -47,4 +55,22 @@ Proof. eexists; reflexivity. Qed.
 Example inner_nil_pointer_unwrap_panics : exists w, unwrap_all (GPtr (Some (GPtr None))) = Panic w.
 Proof. eexists; reflexivity. Qed.
 Example inner_nil_pointer_is_empty : try_provider (GPtr (Some (GPtr None))) = Done (POk DEmpty).
+Proof. reflexivity. Qed.
+Example legacy_nil_embedded_pointer_panics : exists w, lookup_promoted_legacy ["name"] (DFields [("B", true, true)]) "name" = Panic w.
+Proof. eexists; reflexivity. Qed.
+Example nil_embedded_pointer_is_absent : lookup_promoted ["name"] (DFields [("B", true, true)]) "name" = Done false.
+Proof. reflexivity. Qed.
+
+(** rendering a path: the repaired function is total; the legacy one agreed with it on paths without
+    empty segments and panicked on the others *)
+Theorem render_legacy_agrees_without_empty_segments : forall segs prev,
+  Forall (fun v => v <> "") segs -> render_legacy prev segs = Done (render_from prev segs).
+Proof.
+  induction segs as [|v r IH]; intros prev H; cbn [render_legacy render_from]; [reflexivity|].
+  inversion H as [|? ? Hv Hr]; subst. destruct v as [|a v']; [congruence|]. cbn [is_empty].
+  rewrite andb_false_r. rewrite (IH _ Hr). reflexivity.
+Qed.
+Example legacy_empty_key_below_a_key_panics : exists w, render_legacy "" ["inner"; ""] = Panic w.
+Proof. eexists; reflexivity. Qed.
+Example empty_key_below_a_key_is_rendered : render_from "" ["inner"; ""] = "inner.".
 Proof. reflexivity. Qed.
